@@ -130,7 +130,9 @@ func (r *e2eRig) serve(n int) {
 				return
 			}
 			if r.wrapAccepted != nil {
-				c = r.wrapAccepted(i, c)
+				if c = r.wrapAccepted(i, c); c == nil {
+					continue // the hook keeps the connection for itself
+				}
 			}
 			vrt.Go(fmt.Sprintf("dispatch%d", i), func() { dispatchConnection(c, r.sta) })
 		}
